@@ -363,7 +363,7 @@ func (m ValsetMonitor) Post(e *Explorer, before, w *World, pre interface{}, ev *
 }
 
 func checkC16(rc *RunCtx) {
-	model := LoadSolModel("/repo/evm/contracts")
+	model := LoadSolModel(RepoDir() + "/evm/contracts")
 	mons := []Monitor{ValsetMonitor{model: model}}
 	depth := 4
 	if !rc.Quick() {
